@@ -673,6 +673,14 @@ PROPS["C06"]["rule"] += (" kmutual: pairs of Tflush naming each other's tags wri
 PROPS["C08"]["level_text"] += (" Added: Trename/Trenameat/Tlink with the first fid fenced and the second bound refuse with EINVAL before the backend; "
     "Renamed(file, new parent file, new name) is in the call log after the callback loop for every live moved reference and stays there "
     "(Session/Calls.lean: the log only grows), references already being destroyed are skipped.")
+PROPS["C10"]["level_text"] += (" Recycled response objects (Conc/RespPool.lean, after defect D20): over all clients of the process and every "
+    "interleaving of calls starting, failing to send, being answered, connections failing and calls returning, a pooled response is referenced "
+    "by no pending map and its channel is empty, no response serves two calls, and handleOne never blocks on a done channel while holding the "
+    "receive token (reply path and error path); the pre-repair code is a 6-step witness in which a healthy client's reply can never be "
+    "delivered. Regenerated obligation: sendRecv's send-failure branch deletes its pending entry and drains the channel before the deferred Put.")
+PROPS["C10"]["rule"] += (" kstale: client X has a call waiting, 1..3 further calls on X fail while writing; a call on client Y; X's connection closes; "
+    "Y's call must keep waiting and then return its own reply. A preparation (handshake/attach/clone against the lock-step fake server) that fails is "
+    "reported (prepfailed=1).")
 PROPS["C10"]["rule"] += (" kmuxfid: a Close whose Rclunk is withheld while another goroutine allocates a fid; kmux: half of the runs refuse a third of "
     "the calls with an errno that identifies the request - each caller must see its own errno.")
 PROPS["C12"]["rule"] += " kmsz: two Tversion exchanges on one connection, the second Rversion must announce min(requested, 4 MiB) whatever came before."
